@@ -182,7 +182,9 @@ func checkC06(sc *Scenario, res *RunResult, t *Truth) []Violation {
 							add("sigkill-after-successful-stop-command", "", fmt.Sprintf("the shutdown command of %s succeeded (t=%v) but SIGKILL was sent at t=%v", p.Name, run.ExitT, kill.T), kill.Seq)
 						}
 					}
-					if !okRun && run.ExitSeq >= 0 && kill == nil && L.AliveAt(run.ExitSeq) && t.EndT-run.ExitT > time.Second {
+					// (a command that ends by itself at the very instant at which the shutdown
+					// command fails is gone when the SIGKILL is attempted: ESRCH, nothing recorded)
+					if !okRun && run.ExitSeq >= 0 && kill == nil && L.AliveAt(run.ExitSeq) && (L.ExitSeq < 0 || L.ExitT > run.ExitT) && t.EndT-run.ExitT > time.Second {
 						add("no-sigkill-after-failed-stop-command", "", fmt.Sprintf("the shutdown command of %s failed (t=%v, code %d, signal %d) while the process was alive, but no SIGKILL followed", p.Name, run.ExitT, run.Code, run.BySig), run.ExitSeq)
 					}
 				}
